@@ -95,6 +95,10 @@ def nufft_cases(ctx, sp, rng):
             try:
                 A = sp.linop.NUFFT(bat + grid, coord, toeplitz=toep, **kw)
                 x = linop_common.cvec(rng, A.ishape)
+                if it % 3 == 0:
+                    # the same A.N object is first applied to a real-dtype array (as MaxEig does with its default dtype): nothing it
+                    # keeps from that call may change what it does to the complex array
+                    _ = A.N(np.ascontiguousarray(np.real(x)))
                 w, w2 = np.asarray(A.N(x)), np.asarray(A.H(A(x)))
                 err = np.linalg.norm(w - w2) / (np.linalg.norm(w2) + 1e-30)
                 if toep:
@@ -115,11 +119,45 @@ def nufft_cases(ctx, sp, rng):
     return bad
 
 
+def solver_stream(ctx, sp, rng):
+    """'every solver that works through A.N minimises the objective defined by A itself': LinearLeastSquares on operators whose
+    normal operator is an analytic shortcut (Identity for FFT / IFFT / Reshape / Transpose / Circshift / Identity, tiling blocks),
+    compared with the dense minimiser of 1/2||A x - y||^2 + lamda/2||x||^2"""
+    from vlib import linser
+    bad = {}
+    lin = sp.linop
+    for k in range(ctx.n(12, 120)):
+        sh = [rng.randint(2, 3), rng.randint(2, 4)]
+        kind = ["fft", "ifft", "reshape", "transpose", "circshift", "identity", "blocks", "scaled-fft"][k % 8]
+        A = {"fft": lambda: lin.FFT(sh), "ifft": lambda: lin.IFFT(sh, axes=[-1]), "reshape": lambda: lin.Reshape([sh[0] * sh[1]], sh),
+             "transpose": lambda: lin.Transpose(sh), "circshift": lambda: lin.Circshift(sh, [1], axes=[-1]), "identity": lambda: lin.Identity(sh),
+             "blocks": lambda: lin.ArrayToBlocks([4, 6], [2, 3], [2, 3]), "scaled-fft": lambda: (2 - 1j) * lin.FFT(sh)}[kind]()
+        lam = [0.0, 0.3][k % 2]
+        y = linop_common.cvec(rng, A.oshape).astype(np.complex128)
+        M = linser.dense(A)
+        n = M.shape[1]
+        xs = np.linalg.solve(M.conj().T @ M + lam * np.eye(n), M.conj().T @ y.ravel())
+        for solver, kw in (("ConjugateGradient", {}), ("GradientMethod", {"max_iter": 300}), ("PrimalDualHybridGradient", {"max_iter": 1500})):
+            ctx.count("C04:solver:%s:%s" % (kind, solver), key=(k, solver), nontrivial=True)
+            try:
+                x = sp.app.LinearLeastSquares(A, y.copy(), lamda=lam, solver=solver, show_pbar=False, **kw).run()
+                e = float(np.linalg.norm(np.ravel(x) - xs) / (np.linalg.norm(xs) + 1e-300))
+                if not e <= 1e-3:
+                    bad.setdefault("solver-through-normal:" + solver, ("LinearLeastSquares(%s) on %r (A.N is an analytic shortcut) does not minimise the objective defined by A: "
+                                                                       "relative distance %.3g from the dense minimiser" % (solver, A, e),
+                                                                       {"kind": "oracle", "operator": repr(A), "lamda": lam, "solver": solver, "y": np.ravel(y).tolist().__repr__(),
+                                                                        "expected": xs.tolist().__repr__(), "observed": np.ravel(x).tolist().__repr__()}))
+            except Exception as e:
+                bad.setdefault("solver-exception", ("LinearLeastSquares(%s) on %r raised %r" % (solver, A, e), {"kind": "impl-exception", "operator": repr(A)}))
+    return bad
+
+
 def run(ctx):
     linop_common.run_linop(ctx, "C04", "Prop_C04.v", 130, 4000, {"normal", "applyN"})
     sp = core.import_sigpy()
     cases, meta, bad = block_cases(ctx, sp, ctx.rng)
     bad.update(nufft_cases(ctx, sp, ctx.rng))
+    bad.update(solver_stream(ctx, sp, ctx.rng))
     failing, ok = [], True
     try:
         failing = L.run_bool_cases(ctx, "c04blocks", linop_common.HEADER, cases, per_file=100)
